@@ -95,3 +95,79 @@ theorem get_pow (a : Dim) (e : Int) (k : String) : get (pow a e) k = get a k * e
   · exact get_map (fun p => p * e) (by simp) a k
 
 end Rink.Dim
+
+namespace Rink.Dim
+
+/-- canonical dimensionalities are determined by their exponent function -/
+theorem canonical_ext (a b : Dim) (ha : Canonical a) (hb : Canonical b) (h : ∀ k, get a k = get b k) : a = b := by
+  induction a generalizing b with
+  | nil =>
+    cases b with
+    | nil => rfl
+    | cons y ys =>
+      obtain ⟨k2, p2⟩ := y
+      have := h k2
+      rw [get_nil, get_cons] at this
+      simp at this
+      exact absurd this.symm (hb.2 (k2, p2) (by simp))
+  | cons x xs ih =>
+    obtain ⟨k1, p1⟩ := x
+    have hs1 := (sorted_cons_iff _ _).mp ha.1
+    have hp1 : p1 ≠ 0 := ha.2 (k1, p1) (by simp)
+    cases b with
+    | nil =>
+      have := h k1
+      rw [get_nil, get_cons] at this
+      simp at this
+      exact absurd this hp1
+    | cons y ys =>
+      obtain ⟨k2, p2⟩ := y
+      have hs2 := (sorted_cons_iff _ _).mp hb.1
+      have hp2 : p2 ≠ 0 := hb.2 (k2, p2) (by simp)
+      have hk : k1 = k2 := by
+        rcases lt_trichotomy k1 k2 with hlt | heq | hgt
+        · exfalso
+          have := h k1
+          rw [get_cons, get_cons] at this
+          have hne : k2 ≠ k1 := fun e => by subst e; exact lt_irrefl _ hlt
+          simp only [if_true, hne, if_false] at this
+          rw [get_of_LB (LB_of_lt hlt hs2.1)] at this
+          exact hp1 this
+        · exact heq
+        · exfalso
+          have := h k2
+          rw [get_cons, get_cons] at this
+          have hne : k1 ≠ k2 := fun e => by subst e; exact lt_irrefl _ hgt
+          simp only [if_true, hne, if_false] at this
+          rw [get_of_LB (LB_of_lt hgt hs1.1)] at this
+          exact hp2 this.symm
+      subst hk
+      have hp : p1 = p2 := by
+        have := h k1
+        rw [get_cons, get_cons] at this
+        simpa using this
+      subst hp
+      congr 1
+      apply ih ys ⟨hs1.2, fun z hz => ha.2 z (by simp [hz])⟩ ⟨hs2.2, fun z hz => hb.2 z (by simp [hz])⟩
+      intro k
+      by_cases hkk : k1 = k
+      · subst hkk
+        rw [get_of_LB hs1.1, get_of_LB hs2.1]
+      · have := h k
+        rw [get_cons, get_cons] at this
+        simpa [hkk] using this
+
+/-- a quotient of canonical dimensionalities is dimensionless only if they are equal -/
+theorem div_eq_nil_iff (a b : Dim) (ha : Canonical a) (hb : Canonical b) :
+    mul a (b.map fun (k, p) => (k, -p)) = [] ↔ a = b := by
+  constructor
+  · intro h
+    apply canonical_ext a b ha hb
+    intro k
+    have hs : Sorted (b.map fun (k, p) => (k, -p)) := map_exp_sorted (fun p => -p) b hb.1
+    have := get_mul a _ ha.1 hs k
+    rw [h, get_nil, get_recip] at this
+    omega
+  · intro h; subst h; exact mul_recip_self a
+
+end Rink.Dim
